@@ -190,6 +190,9 @@ def set_ops(w):
     op("P0.update([c0,c1])", lambda: coll(w, P0).update([c0, c1]), P0)
     op("P0.update([c0],[c1])", lambda: coll(w, P0).update([c0], [c1]), P0)
     op("P0.update()", lambda: coll(w, P0).update())
+    op("P0.update(generator of c0,c1)", lambda: coll(w, P0).update(c for c in (c0, c1)), P0)
+    op("P0.update(iter([c1]),iter([c0]))", lambda: coll(w, P0).update(iter([c1]), iter([c0])), P0)
+    op("P1.update(map over c0)", lambda: coll(w, P1).update(map(lambda x: x, [c0])), P1)
     op("P0^={c0,c1}", lambda: _ixor(coll(w, P0), {c0, c1}))
     op("P0&=set()", lambda: _iand(coll(w, P0), set()))
     op("new child(parent=P0)", lambda: w.pool.append(_new_child(w, P0, 0)))
@@ -262,6 +265,9 @@ def list_ops(w):
         for vi, vals in enumerate(([], [cs[0]], [cs[2], cs[1]], [cs[0], cs[1], cs[2]], [cs[2], cs[2]])):
             op("[%s:%s:%s]=%s" % (sl + (["c%d" % cs.index(v) for v in vals],)), lambda sl=sl, vals=vals: L.__setitem__(slice(*sl), list(vals)))
     op("extend([c0,c1])", lambda: L.extend([cs[0], cs[1]]))
+    op("extend(generator of c1,c0)", lambda: L.extend(c for c in (cs[1], cs[0])))
+    op("+=iter([c2])", lambda: _iadd(L, iter([cs[2]])))
+    op("[0:1]=generator of c2", lambda: L.__setitem__(slice(0, 1), (c for c in (cs[2],))))
     op("extend([c2,c2])", lambda: L.extend([cs[2], cs[2]]))
     op("reverse()", lambda: L.reverse())
     op("clear()", lambda: L.clear())
